@@ -185,6 +185,7 @@ def ops(s, budget, letters="RCIM", phase_ops=True, gone=(), analysis_op=False):
     if analysis_op:
         add(1, ["an", "solve_energy"])
     add(2, ["ac", [], "M", fresh, frail])        # an empty parent list
+    add(2, ["ac", names[0], letters[0], fresh, "nope"])   # the name used as "unknown target" elsewhere becomes a real rail
     if len(names) >= 1:
         add(1, ["ac", [names[0], names[0]], "M", fresh, ""])
         if rails:
